@@ -11,11 +11,11 @@ from verif.reglang.alphabet import alphabet
 PROPERTY = "C03"
 LEVEL = "other"
 LEVEL_TEXT = "the premise that turns 'same content' into 'same bytes' (the emitter consults no source position or ambient state) is proved by frame inference; alias normalisation and the absence of ASCII operators in bare emission are regular-language obligations; convergence of lenient spellings and the strict-profile shape are bounded over the content model with an independent line-level recogniser"
-LEVEL_NOTE = "convergence rests on the parser (B); the line-shape contract of the emitter (C03.P1 in the design) is covered by the bounded recogniser only"
-TECHNIQUE = "frame inference (F) + regular-language obligations (R) on the real emitter/lexer tables; bounded product of lenient rewrites over model documents (B)"
+LEVEL_NOTE = "parser-level layout freedoms (indentation width, blank lines, multi-line lists, omitted END, optional quotes) are proved for all token values on the spines of contracts/parse_scalar.py; convergence of whole documents still rests on the parser (B); the line-shape contract of the emitter (C03.P1 in the design) is covered by the bounded recogniser only"
+TECHNIQUE = "pre/postconditions on the real parser functions for the layout freedoms (symbolic INDENT widths and token values over concrete token spines; z3) + frame inference (F) + regular-language obligations (R) on the real emitter/lexer tables; bounded product of lenient rewrites over model documents (B)"
 EXPLANATION = "C03: F emitter frame, R alias table and bare classes, B every combination of lenient rewrites canonicalises to the canonical rendering's canonical text, which an independent strict-profile recogniser accepts."
 ASSUMPTIONS = ["as C01; the strict-profile recogniser (props.docs_b.strict_profile_problems) is written from the property text"]
-TRUSTED_BASE = ["verif.reglang", "verif.frames", "verif.bounded.model", "z3"]
+TRUSTED_BASE = ["verif.reglang", "verif.frames", "verif.bounded.model", "verif.pyvc", "z3"]
 
 EMIT = ["octave_mcp.core.emitter:emit"]
 UNICODE_OF = {"->": "→", "<->": "⇌", "+": "⊕", "~": "⧺", "vs": "⇌", "|": "∨", "&": "∧", "#": "§"}
